@@ -31,14 +31,18 @@ def _expand_actions(actions: Union[str, List[str]], not_action=False) -> List[st
     raise ValueError(f"Not supported type: {type(actions)}")
 
 
+def _is_action_text(value) -> bool:
+    return isinstance(value, str) or (isinstance(value, list) and all(isinstance(entry, str) for entry in value))
+
+
 def expand_actions(obj):
     if isinstance(obj, dict):
         for key, value in obj.items():
             if value is None:
                 continue  # or obj[key] = None
-            elif key == "Action":
+            elif key == "Action" and _is_action_text(value):
                 obj[key] = _expand_actions(value)
-            elif key == "NotAction":
+            elif key == "NotAction" and _is_action_text(value):
                 obj[key] = _expand_actions(value, not_action=True)
             else:
                 obj[key] = expand_actions(value)
